@@ -69,3 +69,4 @@ Print Assumptions C19_untouched.
 Print Assumptions C19_lines_preserved.
 Print Assumptions C19_tokens_preserved.
 Print Assumptions C19_roundtrip.
+Print Assumptions C19_entry_line_shape.
